@@ -15,7 +15,7 @@ import re
 from typing import Any, Callable
 
 from mc import smallscope as ss
-from mc.choicetree import Alphabet, Stats, draw_strategy, explore, replay
+from mc.choicetree import Alphabet, Stats, draw_strategy, explore
 from mc.runner import Result, digest
 from oracles.jsonschema_mini import Evaluator, Unknown, json_equal, verdict
 from props import common
@@ -26,14 +26,15 @@ RULE = (
     "work item = (schema of the boundary-keyword grammar with <=K keywords, location, spec) at value level, or a small "
     "one-operation document (parameter under test x required x companion parameter x body) at case level; for each item and "
     "each mode set {P},{N},{P,N} one E1 execution = one complete run of the real cover_schema_iter / _iter_coverage_cases in "
-    "which every cached_draw(strategy) answers with the k-th distinct value (k<m) of that strategy's own choice tree "
-    "(<=d_local deviations over a character alphabet, simplest first); all executions with <=d draws answering k>0 are run; "
+    "which every cached_draw(strategy) answers with the k-th distinct valid value (k<m) of that strategy's own choice tree "
+    "(<=d_local deviations over a character alphabet, simplest first: k=0 is the all-zero choice path when it is valid), memoised "
+    "per strategy identity within the execution; all executions with <=d draws answering k>0 are run; "
     "a case is non-trivial when a label was judged (True/False verdict) by the independent evaluator; distinct = distinct "
     "(schema/document, location, spec, modes, label, description, value)"
 )
 BOUNDS = {
     "quick": {"K": 2, "d": 1, "m": 4, "m_case": 3, "d_local": 2, "local_cap": 120, "max_exec_per_tree": 160},
-    "thorough": {"K": 3, "d": 2, "m": 5, "m_case": 4, "d_local": 2, "local_cap": 400, "max_exec_per_tree": 2500},
+    "thorough": {"K": 3, "d": 2, "m": 4, "m_case": 3, "d_local": 2, "local_cap": 200, "max_exec_per_tree": 500},
 }
 BUDGET_S = {"quick": 150, "thorough": 3000}
 CHUNK = 4
@@ -581,8 +582,8 @@ def _objects() -> list[dict]:
 def value_schemas(tier: str, spec: str, loc: str) -> list[tuple[str, dict]]:
     K = BOUNDS[tier]["K"]
     reduced = loc in ("path", "cookie") or spec != "3.0"
-    if reduced and tier == "quick":
-        K = 1
+    if reduced:
+        K = 1 if tier == "quick" else 2
     out: list[tuple[str, dict]] = []
     seen: set[str] = set()
 
@@ -664,7 +665,7 @@ def items(tier: str, seed: int) -> list[dict]:
         for loc in ("body", "query", "header", "path", "cookie"):
             if spec == "2.0" and loc == "cookie":
                 continue
-            if spec != "3.0" and loc not in ("body", "query") and not (tier == "thorough" and spec == "2.0"):
+            if spec != "3.0" and loc not in ("body", "query") and not (tier == "thorough" and spec == "2.0" and loc == "header"):
                 continue
             for fam, schema in value_schemas(tier, spec, loc):
                 out.append({"level": "value", "spec": spec, "loc": loc, "family": fam, "schema": schema})
@@ -842,6 +843,7 @@ def _judge_value(res: Result, item: dict, doc: dict, decl_schema: dict, exempt_s
         # "draws_kind": did every cached_draw of this execution answer with Hypothesis' all-simplest example (what the installed
         # Hypothesis tries first) or did at least one answer differ (simplest rejected by a filter, or another legal answer)
         res.violation(signature, {**det, "draws_kind": draw_kind})
+
     desc = gv.description
     dclass = desc_class(desc)
     label = gv.generation_mode
@@ -1012,6 +1014,7 @@ def _judge_case(res: Result, item: dict, doc: dict, declared: dict, mode_names: 
         # "draws_kind": did every cached_draw of this execution answer with Hypothesis' all-simplest example (what the installed
         # Hypothesis tries first) or did at least one answer differ (simplest rejected by a filter, or another legal answer)
         res.violation(signature, {**det, "draws_kind": draw_kind})
+
     desc = summary["description"]
     dclass = desc_class(desc)
     res.count("cases_judged")
